@@ -19,6 +19,7 @@ def run(ctx):
     T.clause_tables(R, F, "clear_caches")
     T.clause_tables_new(R, F)
     T.clause_clear_resets_height(R, F)
+    T.clause_derived_caches_coherent(R, F)
     T.clause_commit_order(R, F)
     T.clause_read_merge(R, F)
     T.clause_scan_unord(R, F, CG)
